@@ -460,6 +460,11 @@ func c38Loose(desc string) string {
 // helpers of the same package (not themselves Doc methods) up to depth 2 with the helper's parameters replaced by
 // the caller's arguments.
 func c38Collect(fn *ssa.Function, subst map[int][]string, depth int, conds, calls map[string]bool) {
+	c38CollectX(fn, subst, depth, conds, calls, nil)
+}
+
+// c38CollectX is c38Collect that does not descend into the functions of stop (they are examined on their own).
+func c38CollectX(fn *ssa.Function, subst map[int][]string, depth int, conds, calls map[string]bool, stop map[*ssa.Function]bool) {
 	core.Instrs(fn, true, func(in ssa.Instruction) {
 		switch x := in.(type) {
 		case *ssa.If:
@@ -487,7 +492,7 @@ func c38Collect(fn *ssa.Function, subst map[int][]string, depth int, conds, call
 			}
 			calls[o.Name()] = true
 			sc := x.Common().StaticCallee()
-			if sc == nil || depth >= 2 || sc.Pkg != fn.Pkg || sc.Name() == "Doc" || sc == fn || len(sc.Blocks) == 0 || ast.IsExported(sc.Name()) {
+			if sc == nil || depth >= 2 || sc.Pkg != fn.Pkg || sc.Name() == "Doc" || sc == fn || len(sc.Blocks) == 0 || ast.IsExported(sc.Name()) || stop[sc] {
 				return
 			}
 			sub := map[int][]string{}
@@ -495,7 +500,62 @@ func c38Collect(fn *ssa.Function, subst map[int][]string, depth int, conds, call
 				l := c38Subst(core.OriginLeaves(a), subst)
 				sub[i] = strings.Fields(strings.Trim(l, "{}"))
 			}
-			c38Collect(sc, sub, depth+1, conds, calls)
+			c38CollectX(sc, sub, depth+1, conds, calls, stop)
 		}
 	})
+}
+
+// decisionCensus: the set of branch conditions and module callees (helper-aware, c38Collect) of each given function is
+// compared with the table pinned from the reviewed tree; anything pinned that is no longer present is reported.
+func decisionCensus(r *core.Run, rule, table string, fns []*ssa.Function, what string) {
+	type entry struct {
+		Conds []string `json:"conds"`
+		Calls []string `json:"calls"`
+	}
+	got := map[string]entry{}
+	stop := map[*ssa.Function]bool{}
+	for _, fn := range fns {
+		stop[fn] = true
+	}
+	for _, fn := range fns {
+		conds, calls := map[string]bool{}, map[string]bool{}
+		c38CollectX(fn, nil, 0, conds, calls, stop)
+		got[core.SSAKey(fn)] = entry{sortedKeys(conds), sortedKeys(calls)}
+	}
+	if genMode() {
+		genJSON(r, table, got)
+		return
+	}
+	var pinned map[string]entry
+	if !r.Table(table, &pinned) {
+		return
+	}
+	for _, k := range sortedKeys(pinned) {
+		cur, ok := got[k]
+		if !ok {
+			r.Undecided(rule, k, "function does not resolve")
+			continue
+		}
+		have := map[string]bool{}
+		for _, c := range cur.Conds {
+			have["c:"+c] = true
+			have["l:"+c38Loose(c)] = true
+		}
+		for _, c := range cur.Calls {
+			have["f:"+c] = true
+		}
+		var missing []string
+		for _, c := range pinned[k].Conds {
+			if !have["c:"+c] && !have["l:"+c38Loose(c)] {
+				missing = append(missing, "condition "+c)
+			}
+		}
+		for _, c := range pinned[k].Calls {
+			if !have["f:"+c] {
+				missing = append(missing, "call of "+c)
+			}
+		}
+		r.Check(len(missing) == 0, rule, k+": decisions and helpers of the reviewed tree", 0, itoa(len(pinned[k].Conds))+" conditions, "+itoa(len(pinned[k].Calls))+" helpers still present",
+			what+": "+strings.Join(missing, "; "))
+	}
 }
